@@ -38,8 +38,18 @@ package ship
 
 // ---- leaf accessors: inlined ----
 //@ func (c *ShipConnection).getState() inline
-//@ func (c *ShipConnection).RemoteSKI() inline
-//@ func (c *ShipConnection).DataHandler() inline
+// the hub's view of a connection (api: ghost attributes $ski, $dataHandler, $hsState, $hsErr) is these fields: the
+// accessor clauses of api.ShipConnectionInterface are proved for this implementation, not assumed
+//@ ghostdef (c *ShipConnection).$ski := c.remoteSKI
+//@ ghostdef (c *ShipConnection).$dataHandler := c.dataWriter
+//@ ghostdef (c *ShipConnection).$hsState := c.smeState
+//@ ghostdef (c *ShipConnection).$hsErr := c.smeError
+//@ func (c *ShipConnection).RemoteSKI() inline [C11,C15]
+//@   implements api.ShipConnectionInterface.RemoteSKI
+//@ func (c *ShipConnection).DataHandler() inline [C11]
+//@   implements api.ShipConnectionInterface.DataHandler
+//@ func (c *ShipConnection).ShipHandshakeState() [C15,C18]
+//@   implements api.ShipConnectionInterface.ShipHandshakeState
 //@ func (c *ShipConnection).setHandshakeTimerRunning(value) inline
 //@ func (c *ShipConnection).getHandshakeTimerRunning() inline
 //@ func (c *ShipConnection).setHandshakeTimerType(timerType) inline
